@@ -2,6 +2,7 @@
 Per-case checks of the driver (trusted glue): compares implementation records with the model
 (CORR), with the specification oracles (PROP) and evaluates the invariants (INV).
 -/
+import Std.Data.HashSet
 import Daac.Driver.Parse
 import Daac.Spec
 import Daac.Model.Search
@@ -368,7 +369,7 @@ def checkCase (env : Env) (c : Case) : Env × Array String := Id.run do
     a := checkInvs c da LPret a
     a := checkSerial c da a
     -- C15: truthful statistics
-    let want := 1 + ((LPret.flatMap fun p => nprefixes p.key).eraseDups).length
+    let want := 1 + (LPret.foldl (fun (hs : Std.HashSet (List Nat)) p => (nprefixes p.key).foldl (fun hs u => hs.insert u) hs) {}).size
     if da.numStates != want then
       a := a.prop "C15" c.id s!"num_states={da.numStates} but 1 + distinct non-empty prefixes of reportable patterns = {want}"
     match c.hb with
